@@ -991,6 +991,13 @@ func buildMarshal(a *marshalArgs) (mc mcase, ok bool) {
 		mc = mcase{v: map[string]any{"q": map[string]any{"a\xff": 1, "a\xfe": 2}}, collision: true, needInv: true}
 	case "fallmap-invalid-keys":
 		mc = mcase{v: FallMap{O: 1, M: map[string]any{"a\xff": 1, "a\xfe": 2}}, collision: true, needInv: true}
+	case "fallval-invalid-keys":
+		// raw fallback whose names differ only in WHICH ill-formed byte they hold (escape-free spelling)
+		mc = mcase{v: FallVal{O: 1, V: jsontext.Value("{\"a\xff\":1,\"a\xfe\":2}")}, collision: true, needInv: true}
+	case "fallval-invalid-vs-literal":
+		mc = mcase{v: FallVal{O: 1, V: jsontext.Value("{\"p\":0,\"a\xff\":1,\"a\ufffd\":2}")}, collision: true, needInv: true}
+	case "value-invalid-keys":
+		mc = mcase{v: struct{ R jsontext.Value }{jsontext.Value("{\"q\":{\"a\xff\":1,\"a\xfe\":2}}")}, collision: true, needInv: true}
 	case "namedkey-invalid":
 		mc = mcase{v: map[SKey]int{"\xc3": 1, "\xff": 2}, collision: true, needInv: true}
 	case "textkey":
@@ -1290,7 +1297,7 @@ func main() {
 var namedLeaves = []string{"value", "TokReader", "ValTok", "SkipTok", "ValReader", "KnownCI", "FallMap", "FallVal", "FallNamed", "Outer"}
 
 var marshalFamilies = []string{"fallmap-field", "fallnamed-field", "fallval-field", "fallval-escaped", "fallval-internal", "fallval-internal-escaped", "fallval-nested", "value-internal",
-	"map-invalid-keys", "anymap-invalid-keys", "fallmap-invalid-keys", "namedkey-invalid", "textkey", "textkey-struct", "nan-keys",
+	"map-invalid-keys", "anymap-invalid-keys", "fallmap-invalid-keys", "fallval-invalid-keys", "fallval-invalid-vs-literal", "value-invalid-keys", "namedkey-invalid", "textkey", "textkey-struct", "nan-keys",
 	"utf8-string", "utf8-field", "utf8-elem", "utf8-mapval", "utf8-mapkey", "utf8-namedkey", "utf8-anystring", "utf8-anymapkey", "utf8-textmarshaler",
 	"utf8-textmarshaler-key", "utf8-fallmap-key", "utf8-fallmap-val", "utf8-ptr", "utf8-value", "utf8-fallval"}
 
